@@ -113,10 +113,10 @@ class CursorAnalysis:
 
     # ------------------------------------------------------------ state
     def init_state(self):
-        return {"k": {}, "first": {}, "alias": {}}
+        return {"k": {}, "first": {}, "alias": {}, "same": {}}
 
     def copy(self, st):
-        return {"k": dict(st["k"]), "first": dict(st["first"]), "alias": dict(st["alias"])}
+        return {"k": dict(st["k"]), "first": dict(st["first"]), "alias": dict(st["alias"]), "same": dict(st.get("same", {}))}
 
     def join(self, a, b):
         if a == b:
@@ -130,6 +130,9 @@ class CursorAnalysis:
         for c in set(a["alias"]) & set(b["alias"]):
             if a["alias"][c] == b["alias"][c]:
                 r["alias"][c] = a["alias"][c]
+        for c in set(a.get("same", {})) & set(b.get("same", {})):
+            if a["same"][c] == b["same"][c]:
+                r["same"][c] = a["same"][c]
         return r
 
     def K(self, st, p):
@@ -147,6 +150,8 @@ class CursorAnalysis:
             st["first"][p] = first
         for c in [c for c, a in st["alias"].items() if a == p]:
             del st["alias"][c]
+        for c in [c for c, a in st.get("same", {}).items() if a == p or c == p]:
+            del st["same"][c]
 
     # ------------------------------------------------------------ transfer
     def transfer(self, st, e):
@@ -219,6 +224,9 @@ class CursorAnalysis:
                                 if fst is not None and chars is not None and fst not in chars:
                                     self.adv_pos.add(pos)
                     self.moved(st, lt, newk)
+                    if off == 0 and src != lt:
+                        st["same"][lt] = src
+                        st["same"][src] = lt
                 elif rn["k"] == "BinaryOperator" and rn["op"] == "+" and any("String::length(" in f.r(c) or "strlen(" in f.r(c) for c in rn["c"]):
                     self.moved(st, lt, 0)
                 else:
@@ -262,7 +270,10 @@ class CursorAnalysis:
                             self.moved(st, nm, self.K(st, pp[0]) - pp[1], st["first"].get(pp[0]) if pp[1] == 0 else None)
                         else:
                             self.moved(st, nm, 0)
-                if self.struct_cursor and self.T(dcl["init"]) == self.struct_cursor:
+                ini = f.strip(dcl["init"])
+                if f.nodes[ini]["k"] == "CXXConstructExpr" and f.nodes[ini].get("copyctor") and f.nodes[ini]["c"]:
+                    ini = f.strip(f.nodes[ini]["c"][0])
+                if self.struct_cursor and self.T(ini) == self.struct_cursor:
                     self.save_pos.add(pos)
                 d2 = self.deref(dcl["init"])
                 if d2 is not None and d2[1] == 0 and "char" in dcl["t"]:
@@ -303,19 +314,25 @@ class CursorAnalysis:
         a = f.strip(atom)
         n = f.nodes[a]
 
-        def known(p, off, kmin, first=None):
+        def known(p, off, kmin, first=None, _rec=True):
             if off <= self.K(st, p):
                 if st["k"].get(p, 0) < off + kmin:
                     st["k"][p] = min(KMAX, off + kmin)
                 if first is not None and off == 0:
                     st["first"][p] = first
+            o = st.get("same", {}).get(p)
+            if o is not None and _rec:
+                known(o, off, kmin, first, False)
 
-        def zero(p, off):
+        def zero(p, off, _rec=True):
             if off == 0:
                 st["k"][p] = 0
                 st["first"][p] = 0
             elif off <= self.K(st, p):
                 st["k"][p] = off
+            o = st.get("same", {}).get(p)
+            if o is not None and _rec:
+                zero(o, off, False)
 
         d = self.deref(a) or self.char_alias(a, st)
         if d is not None:
